@@ -28,10 +28,10 @@ ST = {0: 'INITIAL', 1: 'SWITCHING', 2: 'STREAMING', 3: 'EXHAUSTED', 4: 'AWAITING
 
 # history: list of files, NEWEST FIRST; file = dict(ext=..., copies=[...], recs=[(ts_ms, kind, regs)], comments=...)
 def gen_history(rng, shape=None):
-    nfiles = rng.choice([1, 2, 2, 3, 3, 4])
+    shape = shape or rng.choice(['plain', 'plain', 'plain', 'equal-boundary', 'single', 'allequal', 'mixed', 'many'])
+    nfiles = rng.choice([1, 2, 2, 3, 3, 4]) if shape != 'many' else rng.choice([11, 12, 13, 21])      # 'many': rotations beyond .9 (natural order, .1 vs .10)
     t = rng.randrange(1, 20) * 10
     files = []
-    shape = shape or rng.choice(['plain', 'plain', 'plain', 'equal-boundary', 'single', 'allequal', 'mixed'])
     for i in range(nfiles):
         if shape == 'single' or (shape == 'mixed' and rng.random() < 0.3):
             n = 1
